@@ -62,6 +62,9 @@ class GenDyn(Gen):
                                                base=["R"] if self.outer_base else None)
         if ["B"] in sp and rng.random() < 0.7:
             mir["bases"][("P",)] = [["B"]]
+        elif ["B"] in sp and rng.random() < 0.6:
+            # the CHILD space derives from B: P[i].C replicates derived members
+            mir["bases"][("P", "C")] = [["B"]]
         names = ["x", "y", "z", "w"]
         for i, nm in enumerate(names):
             self.rank[nm] = i
@@ -423,14 +426,16 @@ class GenDyn(Gen):
 
     def mk_add_bases(self):
         # B becomes a base of P, or of R (the space the nested instances P[i].Q[k] are built from)
-        cand = [t for t in (["P"], ["R"]) if t in self.mir["sp"] and ["B"] in self.mir["sp"]
-                and ["B"] not in self.mir["bases"][tp(t)]]
+        cand = [t for t in (["P"], ["R"], ["P", "C"]) if t in self.mir["sp"] and ["B"] in self.mir["sp"]
+                and ["B"] not in self.mir["bases"][tp(t)]
+                and not (t == ["P", "C"] and ["B"] in self.mir["bases"][("P",)])
+                and not (t == ["P"] and ["B"] in self.mir["bases"].get(("P", "C"), []))]
         if not cand:
             return None
         return {"op": "add_bases", "s": self.rng.choice(cand), "bs": [["B"]]}
 
     def mk_remove_bases(self):
-        cand = [t for t in (["P"], ["R"]) if ["B"] in self.mir["bases"].get(tp(t), [])]
+        cand = [t for t in (["P"], ["R"], ["P", "C"]) if ["B"] in self.mir["bases"].get(tp(t), [])]
         if not cand:
             return None
         return {"op": "remove_bases", "s": self.rng.choice(cand), "bs": [["B"]]}
